@@ -1076,6 +1076,41 @@ func run(c *core.Ctx) {
 		}
 	}
 
+	// fixed-length DELTA_BYTE_ARRAY around the hand-over from the vector kernels to the scalar
+	// tail (decodeFixedLenByteArray: the kernel takes the values whose successors' suffixes
+	// total at least 64 bytes): 2 and 3 values of 40 / 70 / 133 bytes, every value sharing
+	// 0, 1, 2, half, all but one or all of its bytes with the one before it, so that the kernel
+	// decodes exactly one value, two, or none, and the first scalar value has a prefix to take
+	// from the last vector value
+	for _, size := range []int{40, 70, 133} {
+		shares := []int{0, 1, 2, size / 2, size - 1, size}
+		var rec func(vals [][]byte, left int)
+		rec = func(vals [][]byte, left int) {
+			if left == 0 {
+				strs := make([]string, len(vals))
+				for i, v := range vals {
+					strs[i] = fmt.Sprintf("%x", v)
+				}
+				runCase(c, &c04Case{Enc: "dba_flba", Width: size, Strs: strs}, fmt.Sprintf("handover/size=%d", size))
+				return
+			}
+			for _, p := range shares {
+				v := make([]byte, size)
+				for j := range v {
+					v[j] = byte(1 + rng.Intn(255))
+				}
+				copy(v, vals[len(vals)-1][:p])
+				rec(append(vals[:len(vals):len(vals)], v), left-1)
+			}
+		}
+		first := make([]byte, size)
+		for j := range first {
+			first[j] = byte(1 + rng.Intn(255))
+		}
+		rec([][]byte{first}, 1)
+		rec([][]byte{first}, 2)
+	}
+
 	// history: one encoder value and one destination reused across many calls
 	histDst := make([]byte, 0, 64)
 	e := &delta.BinaryPackedEncoding{}
